@@ -14,13 +14,13 @@ def generate(tier, seed):
         for th in (2, 4, 8, 16):
             for cached in (0, 1):
                 for writer in (0, 1):
-                    for handle in (0, 1):
+                    for handle in (0, 1, 2):
                         cases.append("stress %d %d %d %d %d %d" % (th, cached, writer, handle, rnd.randrange(1 << 30), iters))
     return {
         "cases": cases,
         "exhaustive": False,
         "rule": ("threads in {2,4,8,16} x {Enforcer, CachedEnforcer} x {no writer, writer applying a 10-step history under an outer RwLock} x "
-                 "{no handle thread, a thread reading through get_role_manager()}; every thread issues %d requests drawn from the 20-request cross "
+                 "{no handle thread, a thread reading through get_role_manager(), a thread reading AND writing unrelated links through it}; every thread issues %d requests drawn from the 20-request cross "
                  "product in a seeded order; each decision must equal the serial decision of some prefix state, the final state must be the serial end "
                  "state, and all threads must finish within the watchdog bound. non-trivial = a writer or a handle thread runs concurrently" % iters),
         "distribution": {"iterations_per_thread": iters, "configurations": len(cases)},
@@ -29,4 +29,4 @@ def generate(tier, seed):
 
 def nontrivial(c, mo):
     t = c.split(" ")
-    return t[3] == "1" or t[4] == "1"
+    return t[3] == "1" or t[4] != "0"
